@@ -77,8 +77,8 @@ pub fn main_campaign() -> SimCampaign {
             avoid: avoid_all(),
             ..Flags::default()
         },
-        quick: 12_000,
-        thorough: 200_000,
+        quick: 30000,
+        thorough: 600000,
         nontrivial,
         probes: vec![],
         // shared subscriptions are made only by the last client, which holds no other
